@@ -231,12 +231,20 @@ func (m *runtimeContextManager) RequireBytes(n int) (mem uint64) {
 func (m *runtimeContextManager) ReleaseMem(memAmount uint64) {
 	// TODO: think about what to do when memory is released when unwinding from
 	// a quota exceeded error
-	if m.hardLimits.Memory > 0 {
+	for m.hardLimits.Memory > 0 {
 		if memAmount <= m.usedResources.Memory {
 			m.usedResources.Memory -= memAmount
-		} else {
+			return
+		}
+		if m.parent == nil {
 			panic("Too much mem released")
 		}
+		// The memory was required in an enclosing context (e.g. a coroutine
+		// created outside a pcall and ending inside it): credit what this
+		// context did not require itself to the parent.
+		memAmount -= m.usedResources.Memory
+		m.usedResources.Memory = 0
+		m = m.parent
 	}
 }
 
